@@ -505,7 +505,17 @@ def _plain(v):
     return v
 
 
+def _sp_codecs_lookup(f, a, k):
+    if a and isinstance(a[0], SSeq):
+        from . import codecnames
+        return codecnames.resolve_module(a[0])[1]
+    return f(*a, **k)
+
+
+import codecs as _codecs_mod
+
 SPECIAL = {
+    _codecs_mod.lookup: _sp_codecs_lookup,
     _io.BytesIO: _sp_bytesio, int: _sp_int, str: _sp_str, bytes: _sp_bytes, bool: _sp_bool,
     dict: _sp_dict, list: _sp_container, tuple: _sp_container, set: _sp_container,
     frozenset: _sp_container,
